@@ -23,12 +23,14 @@ static inline bool wi_has(WI i, uint64_t v){
   if (wi_bot(i)) return false;
   if (wi_top(i)) return true;
   return ((v - WS(i)) & msk(WW(i))) <= wi_span(i); }
-/* an operand / result of an operation at width w: well formed, and of width w (any start, end, flag) or one of the
- * two width-less constants the class builds: top() = [0,7] at width 3, bottom() = flagged [0,0] at width 1.
- * Every constructor establishes this and every operation preserves it (it is a postcondition of every contract). */
+/* an operand / result of an operation at width w: well formed and a non-bottom of width w, or a top of ANY width, or the
+ * constant bottom() = flagged [0,0] at width 1 (the only way the class builds a bottom).  Tops and bottoms carry no usable width: top() is [0,7] at width 3, a top that
+ * arises as [s, s-1] keeps the width it was built at and is handed unchanged through casts by the variable-level domain;
+ * every operation tests is_top()/is_bottom() before it looks at the width.  Every constructor establishes this and
+ * every operation preserves it (postcondition of every contract). */
 static inline bool wi_deftop(WI i){ return i.f2 == 0 && WW(i) == 3 && WS(i) == 0 && WE(i) == 7; }
 static inline bool wi_defbot(WI i){ return i.f2 == 1 && WW(i) == 1 && WS(i) == 0 && WE(i) == 0; }
-static inline bool wi_okw(WI i, uint64_t w){ return wi_ok(i) && (WW(i) == w || wi_deftop(i) || wi_defbot(i)); }
+static inline bool wi_okw(WI i, uint64_t w){ return wi_ok(i) && ((WW(i) == w && !wi_bot(i)) || wi_defbot(i) || wi_top(i)); }
 /* a proper interval of width w: neither bottom nor top */
 static inline bool wi_proper(WI i, uint64_t w){ return wi_ok(i) && !wi_bot(i) && !wi_top(i) && WW(i) == w; }
 static inline bool wi_is(WI i, uint64_t w, uint64_t s, uint64_t e){ return wi_ok(i) && !wi_bot(i) && WW(i) == w && WS(i) == s && WE(i) == e; }
@@ -46,4 +48,127 @@ static inline bool wi_subset(WI a, WI b){
   if (wi_bot(b) || wi_top(a)) return false;
   uint64_t m = msk(WW(a)), off = (WS(a) - WS(b)) & m;
   return off <= wi_span(b) && wi_span(a) <= wi_span(b) - off; }
+/* ---- building spec values */
+static inline W mkw(uint64_t w, uint64_t n){ W x; x.f0 = n; x.f1 = w; x.f2 = (w >= 64 ? 0 : ((uint64_t)1 << w)); return x; }
+static inline WI mkwi(uint64_t w, uint64_t s, uint64_t e){ WI i; i.f0 = mkw(w, s); i.f1 = mkw(w, e); i.f2 = 0;
+  i.f3.a[0] = 0; i.f3.a[1] = 0; i.f3.a[2] = 0; i.f3.a[3] = 0; i.f3.a[4] = 0; i.f3.a[5] = 0; i.f3.a[6] = 0; return i; }
+static inline WI sp_top(void){ return mkwi(3, 0, 7); }
+static inline WI sp_bot(void){ WI i = mkwi(1, 0, 0); i.f2 = 1; return i; }
+static inline uint64_t smaxv(uint64_t w){ return msk(w) >> 1; }
+static inline uint64_t sminv(uint64_t w){ return (uint64_t)1 << (w - 1); }
+/* arithmetic shift right of a w-bit value by k < w (k = w allowed: sign fill) */
+static inline uint64_t ashrv(uint64_t n, uint64_t k, uint64_t w){ return wrapz(fshr(sxv(n, w), k >= 127 ? 127 : k), w); }
+/* ---- spec functions: the algorithms of the APLAS'12 paper as the class implements them, on operands of width w.
+ * They are NOT the property: the property is soundness w.r.t. wi_has; a spec function only NAMES the result so that the
+ * arithmetic fact "this result is sound" can be discharged separately by word-level solvers (lemmas/wi_*.smt2, where
+ * the same functions are transcribed over native w-bit vectors) and what is left for CBMC on the real code is an
+ * equivalence check.  At widths <= 4 soundness is in addition proved directly on the real code, without them. */
+static inline bool sp_leq(WI a, WI b){
+  if (wi_top(b) || wi_bot(a)) return true;
+  if (wi_bot(b) || wi_top(a)) return false;
+  if (WS(a) == WS(b) && WE(a) == WE(b)) return true;
+  return wi_has(b, WS(a)) && wi_has(b, WE(a)) && (!wi_has(a, WS(b)) || !wi_has(a, WE(b))); }
+static inline bool sp_eq(WI a, WI b){ return sp_leq(a, b) && sp_leq(b, a); }
+static inline WI sp_join(WI a, WI b, uint64_t w){
+  if (sp_leq(a, b)) return b;
+  if (sp_leq(b, a)) return a;
+  uint64_t m = msk(w);
+  bool b_as = wi_has(b, WS(a)), b_ae = wi_has(b, WE(a)), a_bs = wi_has(a, WS(b)), a_be = wi_has(a, WE(b));
+  if (b_as && b_ae && a_bs && a_be) return sp_top();
+  if (b_ae && a_bs) return mkwi(w, WS(a), WE(b));
+  if (a_be && b_as) return mkwi(w, WS(b), WE(a));
+  uint64_t span_a = (WS(b) - WE(a)) & m, span_b = (WS(a) - WE(b)) & m;       /* the two gaps */
+  if (span_a < span_b || (span_a == span_b && WS(a) <= WS(b))) return mkwi(w, WS(a), WE(b));
+  return mkwi(w, WS(b), WE(a)); }
+static inline WI sp_meet(WI a, WI b, uint64_t w){
+  if (sp_leq(a, b)) return a;
+  if (sp_leq(b, a)) return b;
+  if (wi_has(b, WS(a))) {
+    if (wi_has(a, WS(b))) {
+      uint64_t span_a = wi_span(a), span_b = wi_span(b);
+      if (span_a < span_b || (span_a == span_b && WS(a) <= WS(b))) return a;
+      return b; }
+    if (wi_has(b, WE(a))) return a;
+    return mkwi(w, WS(a), WE(b)); }
+  if (wi_has(a, WS(b))) {
+    if (wi_has(a, WE(b))) return b;
+    return mkwi(w, WS(b), WE(a)); }
+  return sp_bot(); }
+/* widening (growth rate 8).  max is the span above which the interval jumps to top: 2^(w-3), or 2^(w-1) when w <= 3.
+ * In the last case (b holds both ends of a, neither is included in the other) the join j is b or top; the extension is
+ * joined to j: joining it to b, as the code did, loses the elements of a when a and b together cover the circle. */
+static inline uint64_t sp_widen_max(uint64_t w){ return w > 3 ? (uint64_t)1 << (w - 3) : (uint64_t)1 << (w - 1); }
+static inline WI sp_widen(WI a, WI b, uint64_t w){
+  if (wi_bot(a)) return b;
+  if (wi_bot(b)) return a;
+  if (wi_top(a) || wi_top(b)) return sp_top();
+  if (sp_leq(b, a)) return a;
+  uint64_t m = msk(w);
+  if (wi_span(a) >= sp_widen_max(w)) return sp_top();
+  WI j = sp_join(a, b, w);
+  if (sp_eq(j, mkwi(w, WS(a), WE(b)))) return sp_join(j, mkwi(w, WS(a), (WE(a) * 8 - WS(a) * 7 + 7) & m), w);
+  if (sp_eq(j, mkwi(w, WS(b), WE(a)))) return sp_join(j, mkwi(w, (WS(a) * 8 - WE(a) * 7 - 7) & m, WE(a)), w);
+  if (wi_has(b, WS(a)) && wi_has(b, WE(a))) return sp_join(j, mkwi(w, WS(b), (WS(b) + ((WE(a) * 8 - WS(a) * 8 + 7) & m)) & m), w);
+  return sp_top(); }
+static inline bool sp_overflow(WI a, WI b, uint64_t m){ uint64_t da = wi_span(a), db = wi_span(b); return ((((db + da) & m) + 1) & m) <= db; }
+static inline WI sp_add(WI a, WI b, uint64_t w){
+  if (wi_bot(a) || wi_bot(b)) return sp_bot();
+  if (wi_top(a) || wi_top(b)) return sp_top();
+  uint64_t m = msk(w);
+  if (sp_overflow(a, b, m)) return sp_top();                     /* the two arcs together cover the circle */
+  return mkwi(w, (WS(a) + WS(b)) & m, (WE(a) + WE(b)) & m); }
+static inline WI sp_sub(WI a, WI b, uint64_t w){
+  if (wi_bot(a) || wi_bot(b)) return sp_bot();
+  if (wi_top(a) || wi_top(b)) return sp_top();
+  uint64_t m = msk(w);
+  if (sp_overflow(a, b, m)) return sp_top();
+  return mkwi(w, (WS(a) - WE(b)) & m, (WE(a) - WS(b)) & m); }
+static inline WI sp_neg(WI a, uint64_t w){
+  if (wi_bot(a)) return sp_bot();
+  if (wi_top(a)) return sp_top();
+  uint64_t m = msk(w);
+  return mkwi(w, (0 - WE(a)) & m, (0 - WS(a)) & m); }
+/* crosses the north pole (0111..1 -> 1000..0) / the south pole (1111..1 -> 0000..0); a is a proper interval */
+static inline bool sp_cross_s(WI a, uint64_t w){ return sp_leq(mkwi(w, smaxv(w), sminv(w)), a); }
+static inline bool sp_cross_u(WI a, uint64_t w){ return sp_leq(mkwi(w, msk(w), 0), a); }
+/* Trunc to the k low bits, 1 <= k < w */
+static inline WI sp_trunc(WI a, uint64_t k, uint64_t w){
+  if (wi_bot(a) || wi_top(a)) return a;
+  uint64_t m = msk(w), hs = ashrv(WS(a), k, w), he = ashrv(WE(a), k, w), ls = WS(a) & msk(k), le = WE(a) & msk(k);
+  if (hs == he) { if (ls <= le) return mkwi(k, ls, le); }
+  else if (((hs + 1) & m) == he) { if (!(ls <= le)) return mkwi(k, ls, le); }
+  return sp_top(); }
+/* shifts by a constant k, 0 < k < w (Shl), 0 <= k < w (LShr, AShr) */
+static inline WI sp_shl(WI a, uint64_t k, uint64_t w){
+  if (wi_bot(a) || wi_top(a) || k == 0) return a;
+  WI y = sp_trunc(a, w - k, w);
+  if (wi_top(y)) return sp_top();
+  return mkwi(w, (WS(a) << k) & msk(w), (WE(a) << k) & msk(w)); }
+static inline WI sp_lshr(WI a, uint64_t k, uint64_t w){
+  if (wi_bot(a) || wi_top(a)) return a;
+  if (sp_cross_u(a, w)) return sp_top();
+  return mkwi(w, WS(a) >> k, WE(a) >> k); }
+static inline WI sp_ashr(WI a, uint64_t k, uint64_t w){
+  if (wi_bot(a) || wi_top(a)) return a;
+  if (sp_cross_s(a, w)) return sp_top();
+  return mkwi(w, ashrv(WS(a), k, w), ashrv(WE(a), k, w)); }
+/* half lines in the signed (sg != 0) or unsigned order */
+static inline WI sp_lower(WI a, bool sg, uint64_t w){
+  if (wi_bot(a) || wi_top(a)) return a;
+  if (wi_has(a, sg ? smaxv(w) : msk(w))) return sp_top();
+  return mkwi(w, sg ? sminv(w) : 0, WE(a)); }
+static inline WI sp_upper(WI a, bool sg, uint64_t w){
+  if (wi_bot(a) || wi_top(a)) return a;
+  if (wi_has(a, sg ? sminv(w) : 0)) return sp_top();
+  return mkwi(w, WS(a), sg ? smaxv(w) : msk(w)); }
+/* trim_interval(i, j): remove the value of the singleton j from an end of i */
+static inline bool sp_single(WI a){ return !wi_bot(a) && !wi_top(a) && WS(a) == WE(a); }
+static inline WI sp_trim(WI a, WI b, uint64_t w){
+  if (wi_bot(a) || wi_top(a) || !sp_single(b)) return a;
+  uint64_t k = WS(b), m = msk(w);
+  if (WS(a) == k) return sp_single(a) ? sp_bot() : mkwi(w, (k + 1) & m, WE(a));
+  if (WE(a) == k) return sp_single(a) ? sp_bot() : mkwi(w, WS(a), (k - 1) & m);
+  return a; }
+/* signed comparison of w-bit values */
+static inline bool sle(uint64_t x, uint64_t y, uint64_t w){ return sxv(x, w) <= sxv(y, w); }
 #endif
